@@ -121,6 +121,33 @@ func GenUniverse(t *rapid.T, o UniverseOpts, c *Case) map[string]UBinding {
 		c.GoType[veeName] = "Vee"
 		bind[veeName] = UBinding{Mode: mode}
 	}
+	// one Go type serving two object types (a row type of the application exposed under two names):
+	// "TZ" is bound to the Go type of the first type as well. Of such a pair at most one implements
+	// the interface and at most one is a member of the union - otherwise nothing could tell which of
+	// the two a value under an abstract field is meant to be.
+	twin, twinOf := "", ""
+	if o.Abstract && len(goNames) > 0 && rapid.IntRange(0, 3).Draw(t, "goTypeServesTwoTypes") == 0 {
+		twin, twinOf = "TZ", names[0]
+		c.GoType[twin] = goNames[0]
+		if rapid.Bool().Draw(t, "twinRegistered") {
+			reg[twin] = true
+			bind[twin] = UBinding{Mode: "register"}
+		} else {
+			dirs[twin] = []hx.DirUse{{Name: "go", Args: []hx.KV{{Key: "type", V: hx.Str(goNames[0])}}}}
+			bind[twin] = UBinding{Mode: "go-short"}
+		}
+		names = append(names, twin)
+	}
+	without := func(l []string, x string) []string {
+		var out []string
+		for _, e := range l {
+			if e != x {
+				out = append(out, e)
+			}
+		}
+		return out
+	}
+	has := func(l []string, x string) bool { return len(without(l, x)) != len(l) }
 	composites := append([]string{}, names...)
 	var impl []string
 	if o.Abstract {
@@ -128,6 +155,14 @@ func GenUniverse(t *rapid.T, o UniverseOpts, c *Case) map[string]UBinding {
 		impl = append(impl, rapid.Permutation(names).Draw(t, "implPerm")[:n]...)
 		m := rapid.IntRange(1, len(names)).Draw(t, "nMem")
 		mem := append([]string{}, rapid.Permutation(names).Draw(t, "memPerm")[:m]...)
+		if twin != "" {
+			if has(impl, twin) && has(impl, twinOf) {
+				impl = without(impl, []string{twin, twinOf}[rapid.IntRange(0, 1).Draw(t, "twinImplDrop")])
+			}
+			if has(mem, twin) && has(mem, twinOf) {
+				mem = without(mem, []string{twin, twinOf}[rapid.IntRange(0, 1).Draw(t, "twinMemDrop")])
+			}
+		}
 		// the operation root is an object type like any other: it may implement the interface and be
 		// a member of the union, and be returned under fields typed with them
 		if rapid.IntRange(0, 2).Draw(t, "queryImplements") == 0 {
